@@ -273,3 +273,51 @@ fn c05_handle_time_is_never_torn() {
 	kani::cover!(!reader_preempted, "w:writer-preempted");
 	std::mem::forget(clock); std::mem::forget(h);
 }
+
+// @h prop=C01 tier=quick kind=finding:F5 timeout=280
+// @bounds a running clock at an absurd but finite speed (1e18 ticks/s), one update of 1/4 s: the tick loop `while tick_timer >= 1.0` must terminate within 8 iterations
+// @funcs Clock::update
+// @catches (finding F5) the audio callback not returning for a huge clock speed
+#[kani::proof]
+#[kani::unwind(9)]
+fn c01_find_clock_huge_speed_loop_unbounded() {
+	let a = KvArenas::empty();
+	let info = a.info();
+	let (mut clock, _h) = Clock::new(Value::Fixed(ClockSpeed::TicksPerSecond(1.0e18)), ClockId(kv_key()));
+	clock.kv_force(true, 0, 0.0);
+	clock.update(0.25, &info);
+	kani::cover!(true, "w:returned");
+	std::mem::forget(clock); std::mem::forget(_h);
+}
+
+// @h prop=C05 tier=quick kind=finding:F9 timeout=280
+// @bounds real Clocks storage (capacity 1) with one running clock at tick 5; a zero-length speed change scheduled on the clock's OWN time (tick 2, already reached); the speed parameter updated as Clocks::update does it (inside SelfReferentialResourceStorage::for_each, with the other clocks as Info)
+// @funcs SelfReferentialResourceStorage::for_each, Parameter::<ClockSpeed>::update_tween, Info::when_to_start
+// @catches (finding F9) a speed change scheduled on the clock's own time never taking effect: while a clock is updated it is swapped out of the arena for a dummy, so its own id resolves to a clock that is not ticking
+// @requires kv_storage_place.rs
+#[kani::proof]
+#[kani::unwind(40)]
+fn c05_find_speed_change_on_own_clock_time_never_starts() {
+	use crate::backend::resources::{clocks::Clocks, listeners::Listeners, modulators::Modulators};
+	let (mut clocks, cc) = Clocks::new(1);
+	let (modulators, mc) = Modulators::new(0);
+	let (listeners, lc) = Listeners::new(0);
+	std::mem::forget(cc); std::mem::forget(mc); std::mem::forget(lc);
+	let key = clocks.0.resources.controller().try_reserve().unwrap();
+	let id = ClockId(key);
+	let mut clock = Clock::without_handle(Value::Fixed(ClockSpeed::TicksPerSecond(1.0)));
+	clock.kv_force(true, 5, 0.0);
+	clock.speed.set(Value::Fixed(ClockSpeed::TicksPerSecond(10.0)), Tween { start_time: StartTime::ClockTime(ClockTime { clock: id, ticks: 2, fraction: 0.0 }), duration: Duration::ZERO, easing: Easing::Linear });
+	let r = clocks.0.resources.insert_with_key(key, clock);
+	std::mem::forget(r);
+	clocks.0.kv_push_key(key);
+	// exactly what Clocks::update does, minus the tick loop (Clock::update's first statement is speed.update)
+	clocks.0.for_each(|clock, others| {
+		let info = Info::new(others, &modulators.0.resources, &listeners.0.resources, None);
+		clock.speed.update(0.25, &info);
+	});
+	let c = clocks.0.resources.get(key).unwrap();
+	assert!(c.speed.value() == ClockSpeed::TicksPerSecond(10.0), "a speed change scheduled on the clock's own time takes effect when it is due");
+	kani::cover!(true, "w:reached");
+	std::mem::forget(clocks); std::mem::forget(modulators); std::mem::forget(listeners);
+}
